@@ -29,16 +29,12 @@ theorem deliverNotifiers_eff (i : Nat) (n : Notif) : ∀ (k : Nat) (w : TW),
             | next v => simp only; exact e1.trans (pushB_eff w1 k _)
             | error e =>
               simp only
-              split
-              · exact e1
-              · exact e1.trans ((Eff.setStage w1 k _ _ hk (Stage.le_op2n_same _ _ _ _ _ _) rfl).trans
-                  (pushB_eff _ k _))
+              exact e1.trans ((Eff.setStage w1 k _ _ hk (Stage.le_op2n_same _ _ _ _ _ _) rfl).trans
+                (pushB_eff _ k _))
             | complete =>
               simp only
-              split
-              · exact e1
-              · exact e1.trans ((Eff.setStage w1 k _ _ hk (Stage.le_op2n_same _ _ _ _ _ _) rfl).trans
-                  (pushB_eff _ k _))
+              exact e1.trans ((Eff.setStage w1 k _ _ hk (Stage.le_op2n_same _ _ _ _ _ _) rfl).trans
+                (pushB_eff _ k _))
           · exact e1
         | _ => simp only; exact e1
       | _ => simp only; exact e1
@@ -50,7 +46,7 @@ def emitSrc' (w w1 : TW) (i : Nat) (n : Notif) : TW :=
     if i = j && w.srcSubscribed && w.srcAlive then
       match n with
       | .next _ => w1.push 0 [n]
-      | _ => if fin w.stages then w1 else { w1 with srcAlive := false }.push 0 [n]
+      | _ => { w1 with srcAlive := false }.push 0 [n]
     else w1
   | _ => w1
 
@@ -78,14 +74,10 @@ theorem emitSrc_eff (w w1 : TW) (i : Nat) (n : Notif) (e1 : Eff false w w1) (hst
       | next v => simp only; exact e1.then_push 0 _ (hl _) (hh _)
       | error e =>
         simp only
-        split
-        · exact e1
-        · exact (e1.trans (Eff.of_eq rfl rfl rfl rfl rfl : Eff false w1 { w1 with srcAlive := false })).then_push 0 _ (hl _) (hh _)
+        exact (e1.trans (Eff.of_eq rfl rfl rfl rfl rfl : Eff false w1 { w1 with srcAlive := false })).then_push 0 _ (hl _) (hh _)
       | complete =>
         simp only
-        split
-        · exact e1
-        · exact (e1.trans (Eff.of_eq rfl rfl rfl rfl rfl : Eff false w1 { w1 with srcAlive := false })).then_push 0 _ (hl _) (hh _)
+        exact (e1.trans (Eff.of_eq rfl rfl rfl rfl rfl : Eff false w1 { w1 with srcAlive := false })).then_push 0 _ (hl _) (hh _)
     · exact e1
   | _ => simp only; exact e1
 
